@@ -24,9 +24,9 @@ Section WithCfg.
   Variable app : strategy.
 
   Lemma timers_deliver c e : same_timers c (fst (deliver app c e)).
-  Proof. eapply fr_deliver with (P := same_timers) (ok_item := fun _ => True); try exact same_timers_refl; try exact same_timers_trans; try (intros; apply write_from_emit with (ok_item := fun _ => True); try exact same_timers_refl; try exact same_timers_trans); try (intros; exact I); st_solve. Qed.
+  Proof. eapply fr_deliver with (P := same_timers) (ok_item := fun _ => True); try exact same_timers_refl; try exact same_timers_trans; try (intros; apply send_from_emit with (ok_item := fun _ => True); try exact same_timers_refl; try exact same_timers_trans); try (intros; exact I); st_solve. Qed.
   Lemma timers_send_frame c op r p : same_timers c (fst (send_frame c op r p)).
-  Proof. eapply fr_send_frame with (P := same_timers); try exact same_timers_refl; try exact same_timers_trans; try (intros; apply write_from_emit with (ok_item := fun _ => True); try exact same_timers_refl; try exact same_timers_trans); try (intros; exact I); st_solve. Qed.
+  Proof. apply send_from_emit with (ok_item := fun _ => True); try exact same_timers_refl; try exact same_timers_trans; try (intros; apply send_from_emit with (ok_item := fun _ => True); try exact same_timers_refl; try exact same_timers_trans); try (intros; exact I); st_solve. Qed.
 
   Lemma session_time_same c c' : same_timers c c' -> session_time c' = session_time c.
   Proof. intros (_ & _ & _ & H1 & H2 & _). unfold session_time. rewrite H1, H2. reflexivity. Qed.
